@@ -38,15 +38,119 @@ var values = map[string]struct {
 // over only once (SetAttributeRaw / AppendUnstructuredTokens take the slice,
 // the *Token elements stay shared with the caller), so attributes given the
 // same Tokens value are as independent of each other as any two attributes.
-type callerTokens map[string]hclwrite.Tokens
+//
+// The values stay the caller's: it may overwrite their elements or truncate
+// and refill them between calls (caller-overwrite / caller-refill). What an
+// attribute was given at the time of a call is the attribute's (NewExpressionRaw:
+// "later mutations by the caller" must not change the expression).
+//
+// In the scratch-buffer variant of a history the caller hands over none of
+// its values directly: every slice argument is built in a reused buffer
+// (tokens, labels, traversal) that is scrubbed when the call has returned.
+type callerTokens struct {
+	vals    map[string]hclwrite.Tokens
+	scratch bool
+	tokBuf  hclwrite.Tokens
+	lblBuf  []string
+	travBuf hcl.Traversal
+}
 
-func (ct callerTokens) get(id string, mk func(string) hclwrite.Tokens) hclwrite.Tokens {
-	if t, ok := ct[id]; ok {
+func newCaller(scratch bool) *callerTokens {
+	return &callerTokens{
+		vals:    map[string]hclwrite.Tokens{},
+		scratch: scratch,
+		// sufficient capacity for every argument of the alphabet, so that the
+		// buffers are really reused and never reallocated
+		tokBuf:  make(hclwrite.Tokens, 0, 32),
+		lblBuf:  make([]string, 0, 8),
+		travBuf: make(hcl.Traversal, 0, 8),
+	}
+}
+
+func (ct *callerTokens) get(id string, mk func(string) hclwrite.Tokens) hclwrite.Tokens {
+	if t, ok := ct.vals[id]; ok {
 		return t
 	}
 	t := mk(id)
-	ct[id] = t
+	ct.vals[id] = t
 	return t
+}
+
+// Placeholders the caller writes over its own slices.
+const (
+	overwriteText = "z"    // caller-overwrite: element 0 becomes the identifier z
+	refillText    = "null" // caller-refill: the slice becomes the one token null
+	scrubText     = "zz"   // scratch buffers after a call
+)
+
+func identToken(s string) *hclwrite.Token {
+	return &hclwrite.Token{Type: hclsyntax.TokenIdent, Bytes: []byte(s)}
+}
+
+// tokensArg returns the Tokens argument for a call and what the caller does
+// with its buffer once the call has returned.
+func (ct *callerTokens) tokensArg(src hclwrite.Tokens) (arg hclwrite.Tokens, after func()) {
+	if !ct.scratch {
+		return src, func() {}
+	}
+	ct.tokBuf = append(ct.tokBuf[:0], src...)
+	return ct.tokBuf, func() {
+		for i := range ct.tokBuf {
+			ct.tokBuf[i] = identToken(scrubText)
+		}
+	}
+}
+
+// exprTokensArg is tokensArg for the tokens of an existing expression: in the
+// scratch variant they are built straight into the buffer (BuildTokens appends
+// to the slice it is given).
+func (ct *callerTokens) exprTokensArg(x *hclwrite.Expression) (arg hclwrite.Tokens, after func()) {
+	if !ct.scratch {
+		return x.BuildTokens(nil), func() {}
+	}
+	ct.tokBuf = x.BuildTokens(ct.tokBuf[:0])
+	return ct.tokBuf, func() {
+		for i := range ct.tokBuf {
+			ct.tokBuf[i] = identToken(scrubText)
+		}
+	}
+}
+
+func (ct *callerTokens) labelsArg(src []string) (arg []string, after func()) {
+	if !ct.scratch || len(src) == 0 {
+		return src, func() {}
+	}
+	ct.lblBuf = append(ct.lblBuf[:0], src...)
+	return ct.lblBuf, func() {
+		for i := range ct.lblBuf {
+			ct.lblBuf[i] = scrubText
+		}
+	}
+}
+
+func (ct *callerTokens) traversalArg(src hcl.Traversal) (arg hcl.Traversal, after func()) {
+	if !ct.scratch {
+		return src, func() {}
+	}
+	ct.travBuf = append(ct.travBuf[:0], src...)
+	return ct.travBuf, func() {
+		for i := range ct.travBuf {
+			if i == 0 {
+				ct.travBuf[i] = hcl.TraverseRoot{Name: scrubText}
+			} else {
+				ct.travBuf[i] = hcl.TraverseAttr{Name: scrubText}
+			}
+		}
+	}
+}
+
+// rawTexts are the token texts of the caller's value id as first made.
+func rawTexts(id string) []string {
+	var out []string
+	for _, t := range rawTokens(id) {
+		out = append(out, string(t.Bytes))
+	}
+	return out
 }
 
 func rawTokens(id string) hclwrite.Tokens {
@@ -287,7 +391,7 @@ type realResult struct {
 // execReal performs op on the real file. p was prepared on the model state
 // *before* the operation; the real objects are reached through the handles
 // stored in the model items.
-func execReal(f *hclwrite.File, ct callerTokens, p prep, op Op) realResult {
+func execReal(f *hclwrite.File, ct *callerTokens, p prep, op Op) realResult {
 	var r realResult
 	rb := f.Body()
 	if n := len(p.chain); n > 0 {
@@ -297,24 +401,43 @@ func execReal(f *hclwrite.File, ct callerTokens, p prep, op Op) realResult {
 	case "setv":
 		rb.SetAttributeValue(op.N, values[op.V].v)
 	case "setraw":
-		rb.SetAttributeRaw(op.N, ct.get(op.V, rawTokens))
+		arg, after := ct.tokensArg(ct.get(op.V, rawTokens))
+		rb.SetAttributeRaw(op.N, arg)
+		after()
 	case "copyraw":
 		// the expression of another attribute of the same body, copied the
 		// way the API offers it: by its tokens
-		rb.SetAttributeRaw(op.N, rb.GetAttribute(op.N2).Expr().BuildTokens(nil))
+		arg, after := ct.exprTokensArg(rb.GetAttribute(op.N2).Expr())
+		rb.SetAttributeRaw(op.N, arg)
+		after()
 	case "copyroot":
 		// the same with an attribute of the root body as the source
-		rb.SetAttributeRaw(op.N, f.Body().GetAttribute(op.N2).Expr().BuildTokens(nil))
+		arg, after := ct.exprTokensArg(f.Body().GetAttribute(op.N2).Expr())
+		rb.SetAttributeRaw(op.N, arg)
+		after()
 	case "settrav":
-		rb.SetAttributeTraversal(op.N, traversalVW())
+		arg, after := ct.traversalArg(traversalVW())
+		rb.SetAttributeTraversal(op.N, arg)
+		after()
+	case "caller-overwrite":
+		// the caller assigns to element 0 of its own slice (a new *Token; the
+		// token object that was there is not changed)
+		ct.vals[op.V][0] = identToken(overwriteText)
+	case "caller-refill":
+		// s = append(s[:0], tok): same backing array, new contents and length
+		ct.vals[op.V] = append(ct.vals[op.V][:0], identToken(refillText))
 	case "ren":
 		r.retBool = bp(rb.RenameAttribute(op.N, op.N2))
 	case "rm":
 		r.retNil = bp(rb.RemoveAttribute(op.N) == nil)
 	case "newblk":
-		r.newBlk = rb.AppendNewBlock(op.Ty, op.L)
+		arg, after := ct.labelsArg(op.L)
+		r.newBlk = rb.AppendNewBlock(op.Ty, arg)
+		after()
 	case "appblk":
-		nb := hclwrite.NewBlock(op.Ty, op.L)
+		arg, after := ct.labelsArg(op.L)
+		nb := hclwrite.NewBlock(op.Ty, arg)
+		after()
 		if op.A {
 			nb.Body().SetAttributeValue("a", values["1"].v)
 		}
@@ -335,7 +458,9 @@ func execReal(f *hclwrite.File, ct callerTokens, p prep, op Op) realResult {
 	case "settype":
 		handle(p.blk).SetType(op.Ty)
 	case "setlabels":
-		handle(p.blk).SetLabels(op.L)
+		arg, after := ct.labelsArg(op.L)
+		handle(p.blk).SetLabels(arg)
+		after()
 	case "nl":
 		rb.AppendNewline()
 	case "unstruct":
@@ -636,15 +761,25 @@ func checkOutput(f *hclwrite.File, m *refwriter.File) (out []byte, fl *failure) 
 // that was just performed and the oracle clause that failed (for the two
 // expression clauses also whether the attribute is the operation's own). Three narrow
 // classes are carved out for conditions described in FINDINGS.md.
-func class(op Op, p prep, fl *failure) string {
+func class(op Op, p prep, fl *failure, scratch bool) string {
+	if scratch {
+		// fails only when the caller reuses / scrubs its argument buffers (judge
+		// takes the plain variant's verdict and class when that fails too, so
+		// the carved-out classes below never apply here)
+		return "c12.scratch-buffer." + strings.TrimPrefix(classOf(op, p, fl, false), "c12.")
+	}
+	return classOf(op, p, fl, true)
+}
+
+func classOf(op Op, p prep, fl *failure, carved bool) string {
 	switch {
-	case fl.clause == "unparseable" && p.hazard == "oneline":
+	case carved && fl.clause == "unparseable" && p.hazard == "oneline":
 		return "c12.append-into-oneline-block-unparseable"
-	case fl.clause == "unparseable" && p.hazard == "noeol":
+	case carved && fl.clause == "unparseable" && p.hazard == "noeol":
 		return "c12.append-after-unterminated-last-item-unparseable"
-	case fl.clause == "type-after-settype":
+	case carved && fl.clause == "type-after-settype":
 		return "c12.settype-stale-type-accessor"
-	case fl.clause == "panic-op" && op.K == "settype" && p.blk != nil && p.blk.TypeSets > 0:
+	case carved && fl.clause == "panic-op" && op.K == "settype" && p.blk != nil && p.blk.TypeSets > 0:
 		return "c12.settype-second-call-panics"
 	case (fl.clause == "expr" || fl.clause == "attr-expr") && fl.item != nil && p.body != nil && fl.item != p.body.Attr(op.N) && (op.K != "ren" || fl.item != p.body.Attr(op.N2)):
 		// the expression of an attribute other than the one the operation
@@ -687,6 +822,20 @@ func initialModel(i int) *refwriter.File {
 // an every-step oracle).
 func judge(c engine.Case) engine.Outcome {
 	d := c.Data.(Data)
+	o := judgeVariant(d)
+	if o.V == engine.Viol && d.Scratch {
+		// a history that fails without the scratch buffers as well is reported
+		// as that failure
+		plain := d
+		plain.Scratch = false
+		if o2 := judgeVariant(plain); o2.V == engine.Viol {
+			return o2
+		}
+	}
+	return o
+}
+
+func judgeVariant(d Data) engine.Outcome {
 	o := replay(d, false)
 	if o.V == engine.Viol && len(d.Ops) > 1 {
 		if o2 := replay(d, true); o2.V == engine.Viol {
@@ -694,6 +843,13 @@ func judge(c engine.Case) engine.Outcome {
 		}
 	}
 	return o
+}
+
+func variantNote(d Data) string {
+	if d.Scratch {
+		return " (scratch-buffer variant: slice arguments are built in reused buffers that the caller scrubs after each call)"
+	}
+	return ""
 }
 
 func replay(d Data, everyStep bool) engine.Outcome {
@@ -712,7 +868,7 @@ func replay(d Data, everyStep bool) engine.Outcome {
 	if fl := checkAccessors(f, m, true, len(d.Ops) == 0 || everyStep); fl != nil {
 		return engine.Fail("c12.init."+fl.clause, "initial file %s: %s", init.name, fl.msg)
 	}
-	ct := callerTokens{}
+	ct := newCaller(d.Scratch)
 	var out []byte
 	if len(d.Ops) == 0 {
 		var fl *failure
@@ -742,37 +898,37 @@ func replay(d Data, everyStep bool) engine.Outcome {
 		}
 		if pan != "" {
 			fl := failf("panic-op", "operation panics: %s", pan)
-			return engine.Fail(class(op, p, fl), "initial file %s, history\n%s%s", init.name, hist(), fl.msg)
+			return engine.Fail(class(op, p, fl, d.Scratch), "initial file %s"+variantNote(d)+", history\n%s%s", init.name, hist(), fl.msg)
 		}
 		res := mutate(m, p, op)
 		if res.newBlk != nil {
 			if rr.newBlk == nil {
-				return engine.Fail("c12."+op.K+".returns-nil-block", "initial file %s, history\n%sthe operation returned a nil block", init.name, hist())
+				return engine.Fail("c12."+op.K+".returns-nil-block", "initial file %s"+variantNote(d)+", history\n%sthe operation returned a nil block", init.name, hist())
 			}
 			res.newBlk.Handle = rr.newBlk
 		}
 		if res.retBool != nil && (rr.retBool == nil || *rr.retBool != *res.retBool) {
-			return engine.Fail("c12."+op.K+".return-value", "initial file %s, history\n%sthe operation returned %v, its documentation says %v", init.name, hist(), *rr.retBool, *res.retBool)
+			return engine.Fail("c12."+op.K+".return-value", "initial file %s"+variantNote(d)+", history\n%sthe operation returned %v, its documentation says %v", init.name, hist(), *rr.retBool, *res.retBool)
 		}
 		if res.retNil != nil && (rr.retNil == nil || *rr.retNil != *res.retNil) {
-			return engine.Fail("c12."+op.K+".return-value", "initial file %s, history\n%sRemoveAttribute returned nil=%v, its documentation says nil=%v", init.name, hist(), *rr.retNil, *res.retNil)
+			return engine.Fail("c12."+op.K+".return-value", "initial file %s"+variantNote(d)+", history\n%sRemoveAttribute returned nil=%v, its documentation says nil=%v", init.name, hist(), *rr.retNil, *res.retNil)
 		}
 		last := i == len(d.Ops)-1
 		var ofl *failure
 		if last || everyStep || p.hazard != "" {
 			out, ofl = checkOutput(f, m)
 			if ofl != nil && (ofl.clause == "panic-bytes" || ofl.clause == "unparseable") {
-				return engine.Fail(class(op, p, ofl), "initial file %s, history\n%s%s", init.name, hist(), ofl.msg)
+				return engine.Fail(class(op, p, ofl, d.Scratch), "initial file %s"+variantNote(d)+", history\n%s%s", init.name, hist(), ofl.msg)
 			}
 		}
 		if fl := checkAccessors(f, m, false, last || everyStep); fl != nil && (ofl == nil || fl.clause == "panic-accessor") {
 			if out != nil {
 				fl.msg += fmt.Sprintf("\n--- output\n%s", out)
 			}
-			return engine.Fail(class(op, p, fl), "initial file %s, history\n%s%s", init.name, hist(), fl.msg)
+			return engine.Fail(class(op, p, fl, d.Scratch), "initial file %s"+variantNote(d)+", history\n%s%s", init.name, hist(), fl.msg)
 		}
 		if ofl != nil {
-			return engine.Fail(class(op, p, ofl), "initial file %s, history\n%s%s", init.name, hist(), ofl.msg)
+			return engine.Fail(class(op, p, ofl, d.Scratch), "initial file %s"+variantNote(d)+", history\n%s%s", init.name, hist(), ofl.msg)
 		}
 		if last || everyStep {
 			states.Add(m.Root.String(), out)
